@@ -207,10 +207,13 @@ def main(argv=None):
     vdir = os.path.join(rundir, prop, "violations")
     os.makedirs(vdir, exist_ok=True)
     lines = []
-    for i, v in enumerate(new_viol[:40]):
+    seen_mech = set()
+    for i, v in enumerate(new_viol[:200]):
         p = os.path.join(vdir, "%s-%s-%03d.json" % (tier, a.seed, i))
         json.dump(v, open(p, "w"), indent=1)
-        lines.append("VIOLATION property=%s replay=%s" % (prop, p))
+        if v["mech"] not in seen_mech and len(seen_mech) < 12:   # one line per mechanism
+            seen_mech.add(v["mech"])
+            lines.append("VIOLATION property=%s replay=%s" % (prop, p))
     for mech, vs in known_hit.items():
         print("KNOWN-FINDING: property=%s %s [%s; %d occurrences this run]" %
               (prop, findings[mech]["what"], mech, mech_counts.get(mech, len(vs))))
@@ -254,7 +257,11 @@ def main(argv=None):
     if new_viol:
         for ln in lines:
             print(ln)
-        for v in new_viol[:5]:
+        shown = set()
+        for v in new_viol:
+            if v["mech"] in shown or len(shown) >= 8:
+                continue
+            shown.add(v["mech"])
             print("  witness: monitor=%s mech=%s case=%s expected=%s observed=%s" % (
                 v["monitor"], v["mech"], json.dumps(v["case"])[:300], json.dumps(v["expected"])[:200], json.dumps(v["observed"])[:200]))
         print("VIOLATED " + summary)
